@@ -83,6 +83,11 @@ class FaultSchedule(Entity):
         for fault, handle in zip(self._faults, self._handles, strict=False):
             fault_events = fault.generate_events(ctx)
             handle._events = fault_events
+            if handle.cancelled:
+                # Cancelled before the simulation was built: the events are
+                # created cancelled, so the fault never activates.
+                for event in fault_events:
+                    event.cancel()
             all_events.extend(fault_events)
             logger.debug(
                 "[%s] Fault %s generated %d event(s)",
